@@ -383,6 +383,9 @@ func genC07(r *hlib.Rng, n int) In {
 				}
 				fo := op
 				fo.Fault = &Fault{Table: t, K: r.Intn(cnt[t])}
+				if r.Intn(4) == 0 { // context cancelled while that statement runs, then (as in production) a restart
+					fo.Fault.Cancel = true
+				}
 				in.Ops = append(in.Ops, fo)
 				if r.Intn(5) == 0 {
 					in.Ops = append(in.Ops, Op{K: "restart"})
